@@ -34,7 +34,9 @@ def scenarios(tier):
         # two arguments in one run: whatever happens to the second must not touch what the first one became
         {'kind': k, 'route': r, 'two': True} for r in ('home-warm', 'alt') for k in ('file', 'tree')] + [
         # 100 names are taken and two arguments with that very name come in one run: each needs a random suffix of its own
-        {'kind': 'file', 'route': 'home-hundred', 'two': True}]
+        {'kind': 'file', 'route': 'home-hundred', 'two': True},
+        # the directory the home trash lives in is a dangling symbolic link (an unplugged disk): mkdir of the trash dir answers ENOENT every time
+        {'kind': 'file', 'route': 'home-parent-dangling'}, {'kind': 'tree', 'route': 'home-parent-dangling'}]
 
 
 def level2_filter(tier, scn, op, errno, mut):
@@ -53,7 +55,7 @@ def _layout(s):
     if route == 'inside-entry':
         return '/home/u/w', '/home/u/w/x/T'
     B = '/home/u/w' if route.startswith('home') else '/mnt/v1/w'
-    td = {'home-hundred': scen.HOME_TRASH, 'home-cold': scen.HOME_TRASH, 'home-warm': scen.HOME_TRASH, 'top': '/mnt/v1/.Trash/0', 'alt': '/mnt/v1/.Trash-0', 'fallback': scen.HOME_TRASH, 'home-info-file': scen.HOME_TRASH, 'home-info-missing': scen.HOME_TRASH, 'alt+fallback': '/mnt/v1/.Trash-0'}[route]
+    td = {'home-parent-dangling': scen.HOME_TRASH, 'home-hundred': scen.HOME_TRASH, 'home-cold': scen.HOME_TRASH, 'home-warm': scen.HOME_TRASH, 'top': '/mnt/v1/.Trash/0', 'alt': '/mnt/v1/.Trash-0', 'fallback': scen.HOME_TRASH, 'home-info-file': scen.HOME_TRASH, 'home-info-missing': scen.HOME_TRASH, 'alt+fallback': '/mnt/v1/.Trash-0'}[route]
     return B, td
 
 
@@ -68,6 +70,8 @@ def make_world(s):
         scen.add_entry(W, B + '/pre/x', 'file', tag=' (first argument)')
     elif s.get('two'):
         scen.add_entry(W, B + '/pre', 'file')
+    if s['route'] == 'home-parent-dangling':
+        W.dir('/home/u/.local').link('/home/u/.local/share', '/media/unplugged/share')
     if s['route'] == 'inside-entry':
         scen.add_trash_dir(W, td)
     if s['route'] == 'top':
